@@ -2,7 +2,14 @@
 import json, os, sys
 HERE = os.path.dirname(os.path.dirname(os.path.abspath(__file__)))
 sys.path.insert(0, os.path.join(HERE, "harness"))
-from manifest_table import CHECKS, NOT_APPLICABLE
+CHECKS = {}
+for f in sorted(os.listdir(os.path.join(HERE, "harness", "manifest"))):
+    if f.endswith(".json") and f.startswith("C"):
+        CHECKS[f[:-5]] = json.load(open(os.path.join(HERE, "harness", "manifest", f)))
+NOT_APPLICABLE = {}
+na_path = os.path.join(HERE, "harness", "manifest", "not_applicable.json")
+if os.path.exists(na_path):
+    NOT_APPLICABLE = json.load(open(na_path))
 
 ALL = ["C%02d" % i for i in range(1, 21)]
 checks = []
